@@ -413,6 +413,21 @@ func Shared(a, b *Graph) []*Unit {
 	return out
 }
 
+// Units returns every unit of the graph, sorted by label.
+func Units(g *Graph) []*Unit {
+	out := make([]*Unit, 0, len(g.Units))
+	for _, u := range g.Units {
+		out = append(out, u)
+	}
+	sort.Slice(out, func(i, j int) bool {
+		if li, lj := out[i].Label(), out[j].Label(); li != lj {
+			return li < lj
+		}
+		return out[i].key.ptr < out[j].key.ptr
+	})
+	return out
+}
+
 // NotIn returns the units of us that are not (by identity) among base.
 func NotIn(us, base []*Unit) []*Unit {
 	have := map[unitKey]bool{}
@@ -500,7 +515,10 @@ func shallow(hs hasher, v reflect.Value, depth int) {
 	case reflect.Float32, reflect.Float64:
 		fmt.Fprint(hs, v.Float())
 	case reflect.String:
-		fmt.Fprint(hs, len(v.String()), v.String())
+		// content AND identity of the bytes: a slot rewritten with an equal string that was built anew (a time stamp formatted
+		// again within the same second, a header rendered again to the same text) is a write all the same
+		str := v.String()
+		fmt.Fprint(hs, len(str), str, "@", uintptr(unsafe.Pointer(unsafe.StringData(str))))
 	case reflect.Ptr, reflect.Map, reflect.Chan, reflect.UnsafePointer:
 		fmt.Fprint(hs, "@", v.Pointer())
 	case reflect.Func:
